@@ -314,6 +314,9 @@ def pairing(ctx, db):
             nw = [e for e in tr if e.k == 'new' and e.get('placement')]
             fac = [e for e in tr if e.k == 'call' and (e.get('recv') or '') == 'this->_factory']
             ok = ok and len(nw) == 1 and len(fac) == 1
+        # the policy's own dealloc destroys the extra object: alloc must never clean up through it (when the factory throws, nothing was constructed)
+        if any(e.k == 'call' and norm(e.get('callee') or '') == 'cocls::promise_extra_storage::dealloc' for g_ in [f] + [h_ for h_ in helper_bodies(db, f) if not re.search(r'::(alloc|dealloc)$', h_['nname'])] for e in g_.events()):
+            ok = False
         if (f['key'], ok) in seen:
             continue
         seen.add((f['key'], ok))
@@ -438,6 +441,11 @@ def buffer_storage(ctx, db):
     rid = ctx.rule('C19.buffer-large-enough', 'GUARDED', 'reusable_buffer_storage::alloc: the buffer is grown to the computed item count exactly on the edge where its size is smaller than that '
                    'count (size() < items), the count is a ceiling division of sz by the item size, and the buffer\'s data() is what is handed out', floor=1)
     T = htracer(db)
+    for c_ in db.class_insts('cocls::reusable_buffer_storage')[:1]:
+        fl = next((x for x in c_['fields'] if x['name'] == '_buff'), None) or next((x for x in c_['fields'] if 'Buffer' in (x.get('type') or '')), None)
+        t_ = (fl or {}).get('type') or ''
+        ctx.ob(rid, 'cocls::reusable_buffer_storage', c_['loc'], fl is not None and t_.rstrip().endswith('&'), 'the adapter refers to the caller\'s buffer (%s)' % t_,
+               desc='reusable_buffer_storage keeps a private copy of the buffer: the caller\'s buffer never warms up and frames live in an object that dies with the adapter')
     for f in db.need('cocls::reusable_buffer_storage::alloc')[:1]:
         bad = None; ng = nk = 0
         for tr in [t for t in T.traces(f) if live(t)]:
